@@ -187,6 +187,10 @@ def hybrid_fits(ctx, nfits):
                 key = "fbs:gain-not-real" if "really" in msg else ("fbs:not-maximal" if "alternative" in msg else "fbs:inadmissible")
                 ctx.violation(msg + " (state reached during Kauri.fit after a scripted prefix)", "find_best_split",
                               {**kl.state_json(st), "fit": inp}, expected=det, key=key + ":hybrid", how=how)
+        if h["calls"] and not bad_state:
+            msg = kl.stopped_early(h["model"], X, params, h["calls"][-1][1][0])
+            if msg:
+                ctx.violation(msg + " (run with a scripted prefix)", "fit:hybrid", inp, key="fit:stopped-early:hybrid", how=how)
         if real and not bad_state:
             base = kl.J(kern, kl.labels_of(real[0][0]))
             final = kl.J(kern, h["model"].labels_.tolist())
@@ -213,7 +217,7 @@ def fits(ctx, nfits):
         params = dict(max_clusters=int(rs.randint(1, 5)), max_depth=[None, 1, 2, 3][rs.randint(4)],
                       min_samples_leaf=int(rs.choice([1, 1, 2])), max_features=[None, 1, 2][rs.randint(3)],
                       max_leaves=[None, 2, 3, 4][rs.randint(4)], kernel="precomputed", random_state=int(rs.randint(1000)))
-        params["min_samples_split"] = max(2, 2 * params["min_samples_leaf"], int(rs.choice([2, 2, 3, 4])))
+        params["min_samples_split"] = max(2, 2 * params["min_samples_leaf"], int(rs.choice([2, 2, 3, 4, 6])))
         calls = []
 
         def fbs(kernel, Xa, lte, Y, Z, ncl, Kmax, nl, ml, feats):
@@ -242,14 +246,11 @@ def fits(ctx, nfits):
             sc = Fraction(model.score(X, kern))
             if sc != final:
                 ctx.violation(f"score {float(sc)} != objective of labels_ {float(final)}", "fit", inp, key="fit:score")
-            # stopping: after the last call either gain <= 0, or a structural limit
+            # stopping: after the last call either gain <= 0, or a structural limit of the USER's configuration
             if calls:
-                st, s = calls[-1]
-                nleaves = len(set(model.leaves_.tolist()))
-                maxl = params["max_leaves"] or n
-                if Fraction(s.gain) > 0 and nleaves < maxl:
-                    # the loop went on; then it must have stopped because nothing is left to explore
-                    pass
+                msg = kl.stopped_early(model, X, params, Fraction(calls[-1][1].gain))
+                if msg:
+                    ctx.violation(msg, "fit", inp, key="fit:stopped-early", how="Kauri(**params).fit(X, kernel) with the transliterated find_best_split")
             for st, s in calls:
                 r = (Fraction(s.gain), int(s.leaf), int(s.left_target), int(s.right_target), int(s.feature), Fraction(float(s.threshold)))
                 ok, msg, det = kl.check_split_oracle(st, r)
